@@ -16,7 +16,7 @@
  *                    at most the one invocation that raced with the call may still follow the old one
  *   AfterAtMostOnce / exactly once for dispatch_after
  *   Fires            every armed, unsuspended, uncancelled timer is invoked (waits generously; a miss is a
- *                    violation only when the process is quiescent with the timer overdue, or after 90 s)
+ *                    violation only when the process is quiescent with the timer overdue by 10 s, or after 45 s)
  * Trace mode (5th argument): every start/interval is a whole microsecond and the guarded H5 probes of
  * event.c / event_epoll.c (manager-side decisions: arm, disarm, run, fire, program, timerfd event, blocking
  * epoll_wait) are recorded and written as ndjson for spec/TimerTrace.tla, times in microseconds since a base.
@@ -44,6 +44,7 @@
 #define MAXG 12
 #define MAXOPS 8
 #define NLOG 24
+#define FAR_NS (5ull * NSEC_PER_SEC)
 enum { K_SOURCE = 0, K_AFTER = 1, K_AFTER_F = 2 };
 enum { OP_SET_OWN = 1, OP_SET_FOREIGN, OP_SUSPEND, OP_RESUME, OP_CANCEL };
 
@@ -170,7 +171,9 @@ static dispatch_time_t make_when(const cfgspec_t *s, cfg_t *c)
 				s->clock == DISPATCH_CLOCK_MONOTONIC ? DISPATCH_MONOTONICTIME_NOW : DISPATCH_WALLTIME_NOW, 0);
 		dispatch_clock_t clk0; uint64_t v0;
 		_dispatch_time_to_clock_and_value(t0, &clk0, &v0);
-		int64_t desired = (int64_t)v0 + (s->how == 2 ? 0 : s->delta_ns);
+		int64_t dl = s->how == 2 ? 0 : s->delta_ns;
+		if (dl > 1500 * (int64_t)NSEC_PER_SEC) dl = 1500 * (int64_t)NSEC_PER_SEC;   /* microseconds since the base must fit 31 bits */
+		int64_t desired = (int64_t)v0 + dl;
 		desired -= desired % 1000;
 		when = dispatch_time(t0, desired - (int64_t)v0);
 		dispatch_clock_t clk; uint64_t value;
@@ -288,6 +291,7 @@ static void gen_spec(cfgspec_t *s, int allow_forever)
 	if (k < 6) { s->how = 0; s->delta_ns = -(int64_t)rndin(1, 5) * (int64_t)NSEC_PER_MSEC; }          /* past */
 	else if (k < 14) { s->how = 2; }                                                                    /* literal NOW */
 	else if (k < 18 && allow_forever) { s->how = 3; }                                                   /* FOREVER */
+	else if (k < 23) { s->how = (int)rndin(0, 1); s->delta_ns = (int64_t)rndin(600, 7200) * (int64_t)NSEC_PER_SEC; } /* far: sits in the heap */
 	else { s->how = (int)rndin(0, 1); s->delta_ns = (int64_t)rndin(1, 300) * (int64_t)NSEC_PER_MSEC + (int64_t)rndin(0, 999999); }
 	unsigned i = (unsigned)rndin(0, 99);
 	if (i < 40) s->interval_ns = 0;                                                    /* one-shot */
@@ -489,6 +493,7 @@ int main(int argc, char **argv)
 			if (t->kind != K_SOURCE) {
 				if (atomic_load(&t->aruns) >= 1) continue;
 				uint64_t now = clock_now(t->acfg.clock);
+				if (t->acfg.start > now + FAR_NS) continue;                 /* far deadline: no obligation in this run */
 				if (now <= t->acfg.start) { if (missed < 0) missed = i; continue; }
 				od = (now - t->acfg.start) / NSEC_PER_MSEC;
 			} else {
@@ -497,6 +502,7 @@ int main(int argc, char **argv)
 				if (g != atomic_load(&t->gen_pub) || (t->own && t->cur != g)) { if (missed < 0) missed = i; continue; } /* a set_timer in flight */
 				if (c->forever) continue;
 				uint64_t now = clock_now(c->clock);
+				if (c->start > now + FAR_NS) continue;                      /* far start: no obligation in this run */
 				if (c->interval == 0) {      /* one-shot: invoked under its final configuration */
 					if (t->cum[g] >= 1 || (!t->own && atomic_load(&t->ninv_settled) >= 1)) continue;
 					if (now <= c->start) { if (missed < 0) missed = i; continue; }
@@ -511,8 +517,8 @@ int main(int argc, char **argv)
 			if (missed < 0 || od > overdue_ms) { missed = i; overdue_ms = od; }
 		}
 		if (missed < 0) break;
-		if (overdue_ms > 10000 && (quiescent() || overdue_ms > 90000)) {
-			oracle_fail(&T[missed], "Fires", overdue_ms > 90000 ? "armed, unsuspended, uncancelled timer not invoked 90 s after it was due (a = ms overdue)"
+		if (overdue_ms > 10000 && (quiescent() || overdue_ms > 45000)) {
+			oracle_fail(&T[missed], "Fires", overdue_ms > 45000 ? "armed, unsuspended, uncancelled timer not invoked 45 s after it was due (a = ms overdue)"
 					: "armed, unsuspended, uncancelled timer not invoked although it is overdue (a = ms) and every thread of the process sleeps", overdue_ms, waited_ms);
 			fprintf(stdout, "{\"seed\":%llu,\"result\":\"never-fired\"}\n", (unsigned long long)g_seed);
 			_exit(71);
@@ -522,7 +528,8 @@ int main(int argc, char **argv)
 	if (atomic_load(&g_fail)) { printf("{\"seed\":%llu,\"failed\":1}\n", (unsigned long long)g_seed); fflush(stdout); _exit(2); }
 	/* late duplicates of dispatch_after blocks */
 	usleep(60000);
-	for (int i = 0; i < N; i++) if (T[i].kind != K_SOURCE && atomic_load(&T[i].aruns) != 1 && !atomic_load(&g_fail))
+	for (int i = 0; i < N; i++) if (T[i].kind != K_SOURCE && !atomic_load(&g_fail) &&
+			atomic_load(&T[i].aruns) != (T[i].acfg.start > clock_now(T[i].acfg.clock) ? 0 : 1))
 		oracle_fail(&T[i], "AfterExactlyOnce", "dispatch_after block did not run exactly once (a runs)", (uint64_t)atomic_load(&T[i].aruns), 0);
 	for (int i = 0; i < N; i++) if (T[i].kind == K_SOURCE && T[i].ds && !atomic_load(&T[i].cancelled)) {
 		if (atomic_load(&T[i].suspended)) dispatch_resume(T[i].ds);
